@@ -1407,6 +1407,10 @@ class Engine:
                 idx_r(fn(q.t), inv(q.t, i)) == elt_at(i))),
                 patterns=[z3.MultiPattern(fn(q.t), idx_x(q.t, i))]))
             A(f"comp.{tag}.len", z3.ForAll([q.t] + pts, z3.And(0 <= ln_r(fn(q.t)), ln_r(fn(q.t)) <= ln_x(q.t)), patterns=[fn(q.t)]))
+            # a non-empty result has a first element, which comes from an element satisfying the filter (emptiness proofs need this
+            # without an index term to trigger on)
+            A(f"comp.{tag}.first", z3.ForAll([q.t] + pts, z3.Implies(ln_r(fn(q.t)) > 0, z3.And(
+                0 <= emb(q.t, 0), emb(q.t, 0) < ln_x(q.t), cond_at(emb(q.t, 0)), idx_r(fn(q.t), 0) == elt_at(emb(q.t, 0)))), patterns=[fn(q.t)]))
         # homomorphism laws
         emp_x, emp_r = self.pre.fn[f"empty_{xs.ty.name}"], self.pre.fn[f"empty_{rty.name}"]
         unit_x, unit_r = self.pre.seqf(xs.ty, "unit"), self.pre.seqf(rty, "unit")
